@@ -174,6 +174,55 @@ claim('C09',
       'as the Euclidean point-to-segment distance, vf/interp.py, vf/poly.py.',
       'DESIGN.md section 3, C09')
 
+claim('C04',
+      'typestate abstract interpretation of every method of the class family from the four '
+      '(port, err) states, with computed summaries of the transport primitives and fault '
+      'injection at every port call; who-may-write scan for side doors',
+      'Decides for all call histories at the level of the two state fields: every method of '
+      'EBB3/EBBMotionWrap (about 45, discovered from the parsed classes, not listed) is '
+      'interpreted from OK / ERR / DISC / DISC_ERR with the serial object opaque. D1: from a state '
+      'with an error recorded no method (requests, helpers, connect, disconnect, record_error) '
+      'ends with a different err on any path - the first message is never replaced or cleared. '
+      'D2: in the three blocked states no method except connect puts bytes on the port (direct '
+      'writes and writes inside command/query/query_statusbyte, whose behaviour per state is a '
+      'summary computed from their own source). D3: every request method (one that can transmit '
+      'from OK) returns None/False/tuple-of-None there and does not raise. D4: within one call, '
+      'with a SerialException injectable at every port call, nothing is transmitted after an '
+      'error was recorded. D5: no store to .err/.port and no port I/O outside the class family, '
+      'no reflective attribute stores. D6: disconnect leaves port None on every path including a '
+      'failing close(). Because each method is decided from every state, the statement follows '
+      'for every sequence of calls by induction on the history. Not decided: behaviour of the '
+      'pyserial object itself.',
+      'Trusted: Python ast, vf/interp.py, vf/ebb3.py; assumption: the serial object is reached '
+      'only through self.port. Guards are interpreted, not pattern-matched, so re-spelling a '
+      'guard, moving it to a helper, or dropping it from a pure delegator is not reported.',
+      'DESIGN.md section 3, C04')
+
+claim('C05',
+      'typestate abstract interpretation of command/query and all request methods: effect '
+      'sequences (framing), exact loop unrolling under the all-empty reply case (wait bound), '
+      'decision tables over request kinds x reply classes, fault injection (containment), '
+      'summary-based nullness of query results',
+      'Decides: D1 command/query transmit encode(strip(request)+CR) exactly once on every '
+      'fault-free path, at most once on any path, before the first read and not from a loop. '
+      'D2 when every read is empty the primitive performs exactly 26 reads (first + 25 re-reads; '
+      'loops unrolled abstractly, in helpers too); while-form retry loops increment by one on '
+      'every path and re-read through the same read/decode/strip pipeline. D3/D4 over 3 request '
+      'kinds x representative lengths x 7 reply classes: the request name is the first / first / '
+      'first two characters; success exactly for a non-empty right-name reply without "Err:"; '
+      'command returns True/False in step with err; query returns the reply minus name and one '
+      'comma (never indexing past a bare-name reply) or None with err recorded. D5 with a '
+      'SerialException injected at every port call no request method (about 35) lets an '
+      'exception escape. D6 a primitive that met a fault ends with err set (frozen exemption: '
+      'rb/r/bl in command), every newly recorded error is reported by a failure return value, '
+      'messages are non-empty. D7 None results of query/var_read/motors_query_enabled never '
+      'reach a dereference (AttributeError/TypeError paths of the abstract interpreter). Not '
+      'decided: well-framed but semantically malformed payloads, non-ASCII bytes, attribution '
+      'over whole histories (follows from per-call framing against a conforming device).',
+      'Trusted: Python ast, vf/interp.py, vf/ebb3.py, vf/loops.py; pyserial raises '
+      'SerialException (subclass of IOError) for I/O faults.',
+      'DESIGN.md section 3, C05')
+
 
 def build():
     checks = []
@@ -222,7 +271,7 @@ def build():
         'not_applicable': na,
         'notes': 'Static analysis only: no repo code is imported or executed by any check; exit 0 '
                  '= all obligations discharged, exit 1 = VIOLATION lines, exit 2 = ANALYSIS-ERROR '
-                 '(cannot conclude; never a violation). Six genuine defects found by the rules '
+                 '(cannot conclude; never a violation). Eight genuine defects found by the rules '
                  'were repaired by fix: commits in /repo and are recorded in known_findings.json.',
     }
     with open(os.path.join(VERIF, 'MANIFEST.json'), 'w') as fh:
